@@ -313,6 +313,11 @@ class PopulationBasedTraining(FIFOScheduler):
                 config=config, config_space=self.searcher.config_space
             )
             config["trial_id"] = trial_id
+            if self._trial_state[trial_id_to_continue].stopped:
+                # The trial to clone from has been stopped since the decision
+                # was taken (e.g., by a later result in the same batch), so
+                # its checkpoint may have been removed: start from scratch
+                trial_id_to_continue = None
             return TrialSuggestion.start_suggestion(
                 config=config, checkpoint_trial_id=trial_id_to_continue
             )
